@@ -62,6 +62,7 @@ pub struct KAsRef;
 pub struct KCloneOnly;
 pub struct KIntResMixed;
 pub struct KAttrs;
+pub struct KDup;
 pub struct KLife;
 pub struct KGrpA;
 pub struct KGrpR;
@@ -237,6 +238,12 @@ single!(KShapes, Shapes, SHAPES, call_shapes, m, []);
 single!(KIntRes, IntRes, INTRES, call_intres, m, []);
 single!(KAttrs, Attrs, ATTRS, call_attrs, m, []);
 single!(KLife, Life<'static, u64>, LIFE, call_life, m, []);
+single!(KDup, Dup, DUP, call_dup, m, [O: IntoDyn<KDup>,]);
+impl<T: Dup + 'static> IntoDyn<KDup> for T {
+    fn into_dyn(self) -> Box<dyn DynObj> {
+        Box::new(W::<T, KDup>::new(self))
+    }
+}
 single!(KIntResMixed, IntResMixed, INTRESMIXED, call_intresmixed, r, []);
 single!(KDebug, core::fmt::Debug, FMTDEBUG, call_debug, r, []);
 single!(KDisplay, core::fmt::Display, FMTDISPLAY, call_display, r, []);
